@@ -36,7 +36,7 @@ add('C02', 'exploration',
     'Every base transaction (12 shapes x k<=1/2 field deviations) x every witness assignment (all 5^n stack patterns, absent, '
     'empty object) in both classes: txid/wtxid against sha256d of the reference encodings, equality/hash of twins, txid '
     'invariance under witness replacement, no stale identifiers after field edits, immutable snapshots; sub-object twins; '
-    'block hash = sha256d(80-byte header) for constructed and deserialised blocks (arbitrary merkle field) of 0..3 transactions. Also: identifiers of immutable copies after in-place edits of the original, block == header / other-body comparisons after hashing, and objects deserialised from accepted non-canonical encodings. Failing computations come first, the witness hash is also asked for before the txid, an immutable snapshot is taken after every stage of the edit sequence, and runs of 40 short-lived blocks / transactions / headers report their own identifiers. A computation that fails on the mutable twin itself (output value 2^63) is followed by restoring the field and asking again.',
+    'block hash = sha256d(80-byte header) for constructed and deserialised blocks (arbitrary merkle field) of 0..3 transactions. Also: identifiers of immutable copies after in-place edits of the original, block == header / other-body comparisons after hashing, and objects deserialised from accepted non-canonical encodings. Failing computations come first, the witness hash is also asked for before the txid, an immutable snapshot is taken after every stage of the edit sequence, and runs of 40 short-lived blocks / transactions / headers report their own identifiers. A computation that fails on the mutable twin itself (output value 2^63) is followed by restoring the field and asking again. Coinbase-shaped transactions (null prevout) with every witness assignment are part of the product.',
     'DESIGN.md 3 C02', 'Oracle ref/wire.py + hashlib.', 'bounded exhaustive enumeration (complete product of shapes x witness patterns) against a reference model')
 
 add('C03', 'exploration',
@@ -77,7 +77,7 @@ add('C11', 'fault_enumeration',
     'programs; all strings with a valid checksum over every version symbol x payload length 0..66 x every last symbol (padding, '
     'length, version rules on both sides); every single substitution/deletion/insertion/truncation/case flip of 6 addresses; '
     'every double substitution in the data part (2 addresses quick, 6 thorough); every triple (and quadruple in thorough) '
-    'position set over 3 alternatives; every burst of 3 (4) adjacent symbols over all alternatives. Plus checksum-valid addresses under look-alike prefixes (prefix confusion) and 17 non-ASCII confusable characters substituted at every position in lower- and upper-case renderings. Plus checksums made with foreign constants (bech32m, 0, other small values) refused, and upper-/mixed-case renderings of whole addresses. After every call the results handed out by the previous call (decode result, CBech32Data object) are re-examined, and a valid address is decoded right after every refused string. Encodings that must fail (versions 31, 32, 255, -1), a mainnet address decoded before and a mixed-case string judged after every encode call, prefixes containing a 1 at the offsets where other prefixes end, every address object printed again under two other chains. 13 control / white-space characters appended, prepended and appended to the upper-case form.',
+    'position set over 3 alternatives; every burst of 3 (4) adjacent symbols over all alternatives. Plus checksum-valid addresses under look-alike prefixes (prefix confusion) and 17 non-ASCII confusable characters substituted at every position in lower- and upper-case renderings. Plus checksums made with foreign constants (bech32m, 0, other small values) refused, and upper-/mixed-case renderings of whole addresses. After every call the results handed out by the previous call (decode result, CBech32Data object) are re-examined, and a valid address is decoded right after every refused string. Encodings that must fail (versions 31, 32, 255, -1), a mainnet address decoded before and a mixed-case string judged after every encode call, prefixes containing a 1 at the offsets where other prefixes end, every address object printed again under two other chains. 13 control / white-space characters appended, prepended and appended to the upper-case form. Parsed objects are printed, and every text is parsed again, after each of the other chains was selected: a text is accepted exactly under the chain whose prefix it carries, whatever was parsed or refused before.',
     'DESIGN.md 3 C11', 'Oracle ref/bech32.py: checksum as a polynomial remainder over GF(32) (independent of the library\'s polymod), '
     'validated on the BIP173 vectors; for multi-substitution families the linear syndrome decides checksum validity.',
     'exhaustive single/double fault enumeration (plus bounded multi-fault families) against a reference model')
@@ -87,7 +87,7 @@ add('C15', 'exploration',
     'pattern (2^n) and every duplicate pattern (all set partitions of positions, with and without witnesses): whole merkle tree, '
     'root, witness root (coinbase zeroed, NoWitnessData iff no stack non-empty), zero-root fill-in, constructed and deserialised; '
     'every single-byte and single-bit change of the correct root refused; tx weight on the C01 shapes (k<=1/2) and block weight '
-    'incl. 252/253/254 transactions. Plus weight after in-place edits of a mutable transaction, coinbase-shaped transactions in later positions, and the caller\'s txid list left untouched by tree building (second call, tuple). Plus ONE caller-owned transaction list / txid list grown, shrunk and edited in place between block constructions and tree computations; a failing weight computation precedes every weight. Plus blocks deserialised from (and built from transactions parsed one by one from) accepted non-canonical encodings; a failing block deserialisation precedes every construction.',
+    'incl. 252/253/254 transactions. Plus weight after in-place edits of a mutable transaction, coinbase-shaped transactions in later positions, and the caller\'s txid list left untouched by tree building (second call, tuple). Plus ONE caller-owned transaction list / txid list grown, shrunk and edited in place between block constructions and tree computations; a failing weight computation precedes every weight. Plus blocks deserialised from (and built from transactions parsed one by one from) accepted non-canonical encodings; a failing block deserialisation precedes every construction. Plus blocks built from the caller\'s MUTABLE transactions: one of them is looked at (txid / hash / weight / serialisation / a block) and then edited in place (7 edits incl. witness filled / cleared); roots, trees and weights are those of the current field values.',
     'DESIGN.md 3 C15', 'Oracle ref/wire.py merkle_root/merkle_tree (validated on mainnet block 100000) and reference sizes.',
     'bounded exhaustive enumeration (all counts, all partitions up to n) against a reference model')
 
@@ -107,7 +107,7 @@ add('C13', 'exploration',
     'r with 31 bytes, r>=2^255, high S before normalisation, 31-byte s) + unowned draws for signing (strict DER, low S, reference '
     'verification equation, byte-equality with the deterministic result); low-S normalisation grid; verification table over 12 '
     'signature classes x compressed/uncompressed/hybrid keys; public-key validity grid over every prefix byte x {33,65} bytes x '
-    'coordinate classes. Plus key-object histories: three public-key objects alive in every order, set_compressed/get_pubkey sequences on one CECKey, WIF across chain switches. Plus every signature of 0..9 bytes over a DER-shaped alphabet and odd-sized signatures (never accepted, never an exception other than a refusal). Plus ONE public-key object verifying every sequence of <=3 out of 8 signatures of four encoded lengths. Plus one key object signing every sequence of 3 out of 4 owned-nonce signatures of different lengths, a public key outliving its secret while other secrets are created, a valid key and signature right after refused ones.',
+    'coordinate classes. Plus key-object histories: three public-key objects alive in every order, set_compressed/get_pubkey sequences on one CECKey, WIF across chain switches. Plus every signature of 0..9 bytes over a DER-shaped alphabet and odd-sized signatures (never accepted, never an exception other than a refusal). Plus ONE public-key object verifying every sequence of <=3 out of 8 signatures of four encoded lengths. Plus one key object signing every sequence of 3 out of 4 owned-nonce signatures of different lengths, a public key outliving its secret while other secrets are created, a valid key and signature right after refused ones. Public-key objects that are not curve points stay alive while valid ones are built (every construction sequence of 2..4 objects over {invalid, valid}, 5 kinds of invalid bytes): an invalid object never verifies anything, a valid one only its own signature.',
     'DESIGN.md 3 C13', 'Oracle ref/secp256k1.py (group-law self-tests, cross-checked against OpenSSL on oracle-made signatures). The ECDSA nonce is '
     'owned by proxying bitcoin.core.key._ssl (ECDSA_sign -> ECDSA_sign_ex); OpenSSL arithmetic itself is trusted.',
     'bounded exhaustive enumeration (complete products, nonce as enumerated environment answer) against a reference model')
@@ -130,7 +130,7 @@ add('C06', 'model_checking',
     'operand products (24 encodings, WITHIN 24^3, PICK/ROLL, hash opcodes on every length 0..130, RIPEMD-160 on every length '
     '0..600), every value around the four limits, CHECKSIG/CHECKMULTISIG with real keys (every slot assignment incl. duplicated '
     'and out-of-order signatures, key order, dummy, NULLDUMMY, CODESEPARATOR placement) and VerifyScript on all short script '
-    'pairs and P2SH spends under all 12 flag sets. Plus runs of 600 / 1100 distinct messages through a hash opcode followed by the first 150 again.',
+    'pairs and P2SH spends under all 12 flag sets. Plus runs of 600 / 1100 distinct messages through a hash opcode followed by the first 150 again. Plus CHECKSIG / CHECKMULTISIG on ONE mutable transaction edited in place and back between checks (9 edits x 6 hash types x 2 inputs, signatures made before and after the edit), and the truth value of long stack items (1..19, 31..33, 64, 65, 75, 76, 255, 256, 519, 520 bytes x 8 byte patterns) under VERIFY / IFDUP / IF / NOTIF / NOT / 0NOTEQUAL and as the final result of VerifyScript.',
     'DESIGN.md 3 C06', 'Oracle ref/interp.py (agrees with the repository\'s script_valid/invalid vectors restricted to implemented flags; '
     'hash opcodes via hashlib; signatures via ref/secp256k1.py + ref/sighash.py). BFS dedup key = (stack, altstack, vfExec): '
     'sound for the BFS alphabet (no valid signatures, op count far from 201).',
@@ -156,7 +156,7 @@ add('C05', 'fault_enumeration',
     'version, lock time, witness; insert/remove/duplicate/swap of inputs and outputs at every position) and every signature '
     'substitution (foreign key, flipped hash-type byte, permuted order, duplicated signature, substituted redeem script). Oracle: '
     'verifies iff the reference signature hash of the edited transaction equals the signed digest; a hand-written commitment '
-    'table must agree with that oracle (self-test and at run time). Plus verification histories (a genuine spend first, then an output locked to each kind of malformed public key, in P2PK / P2PKH / multisig placements) and VerifySignature with witness-carrying funding transactions. Every substitution is verified without flags first (judged by the reference interpreter) and then with P2SH; verify.edit.verify.undo.verify histories on ONE CMutableTransaction object over the whole edit catalogue with alternating flag sets. Those histories start with evaluations that cannot succeed on a fresh scriptPubKey object; damaged encodings of every signature are checked right after the genuine input. All script checks share one CScript object per byte string and alternate a mutable / immutable spending transaction compared with its baseline after every call. VerifySignature also spends the third output of a three-output funding transaction from transactions with one / no outputs.',
+    'table must agree with that oracle (self-test and at run time). Plus verification histories (a genuine spend first, then an output locked to each kind of malformed public key, in P2PK / P2PKH / multisig placements) and VerifySignature with witness-carrying funding transactions. Every substitution is verified without flags first (judged by the reference interpreter) and then with P2SH; verify.edit.verify.undo.verify histories on ONE CMutableTransaction object over the whole edit catalogue with alternating flag sets. Those histories start with evaluations that cannot succeed on a fresh scriptPubKey object; damaged encodings of every signature are checked right after the genuine input. All script checks share one CScript object per byte string and alternate a mutable / immutable spending transaction compared with its baseline after every call. VerifySignature also spends the third output of a three-output funding transaction from transactions with one / no outputs. Plus the ordinary signing flow on ONE mutable transaction: every input signed on the same object with its own hash type (6^n combinations, n = 2, 3) in every order, then every input verified in every order, twice; every digest is the reference digest and the object keeps the caller\'s field values throughout.',
     'DESIGN.md 3 C05', 'Oracle ref/sighash.py + ref/secp256k1.py; nonce owned (props/eckeys.py); digest collisions ignored.',
     'exhaustive single-edit fault enumeration over sign-edit-verify histories against a reference model')
 
@@ -192,7 +192,7 @@ add('C16', 'fault_enumeration',
     'proof of work is live): every transaction entry applied to every transaction incl. the coinbase, second/missing/misplaced '
     'coinbase, duplicate transaction (and same txid with other witness), sig-ops 19,999/20,000/20,001 in three distributions incl. '
     'malformed trailing pushes, wrong/zero merkle root, 14 witness-commitment modes, timestamp +7200/+7201, bad hash, bits above '
-    'limit/zero/negative, other chains; all pairs on the 3-transaction witness block; block size and weight at +-1 of the limits. Plus every history of <=4 (5) events over {select chain, CheckBlock(2 blocks), CheckBlockHeader(2 difficulty levels)} judged by the rules of the chain selected at that moment. Single entries: the scripts are inspected (accurate sig-op count) on separate equal objects before the check and every block is checked twice; a sig-op distribution where accurate and legacy counts differ. Plus ONE mutable transaction looked at (outpoints in a set, everything hashed), edited in place into every rule violation and back; every sequence of <=3 header / block checks over 3 clock values x {+7200, +7201}. The call histories include a header at exactly the signet limit with valid proof of work (nonce ground once by the harness).',
+    'limit/zero/negative, other chains; all pairs on the 3-transaction witness block; block size and weight at +-1 of the limits. Plus every history of <=4 (5) events over {select chain, CheckBlock(2 blocks), CheckBlockHeader(2 difficulty levels)} judged by the rules of the chain selected at that moment. Single entries: the scripts are inspected (accurate sig-op count) on separate equal objects before the check and every block is checked twice; a sig-op distribution where accurate and legacy counts differ. Plus ONE mutable transaction looked at (outpoints in a set, everything hashed), edited in place into every rule violation and back; every sequence of <=3 header / block checks over 3 clock values x {+7200, +7201}. The call histories include a header at exactly the signet limit with valid proof of work (nonce ground once by the harness). Every transaction verdict is also taken for the same field values held by a mutable transaction and by mutable transactions whose input / output lists mix immutable and mutable element objects.',
     'DESIGN.md 3 C16', 'Oracle ref/rules.py (agrees with the repository\'s checkblock_valid/invalid vectors). Commitment outputs > 39 bytes are don\'t-care.',
     'exhaustive single and pairwise rule-violation (fault) enumeration against a reference rule list')
 
@@ -204,7 +204,7 @@ add('C18', 'fault_enumeration',
     '8,420 streams of <=3 frames from a pool of 20 (position after every message). Every pool frame: every truncation point, every '
     'byte x 4 corruptions judged by region (magic/checksum/payload must be rejected, command judged by what it names, length by '
     'the slice), a 9-value length-field catalogue with recomputed checksum and a sentinel frame (nothing read beyond the header for '
-    'lengths > MAX_SIZE), foreign-chain magic. Plus every history of <=4 (5) events over {select chain, frame 4 types, parse own-chain frames, parse a foreign-chain frame} and headers lists holding CBlock objects. Plus reuse of parsed objects: parse, edit a field, re-frame, parse again. Every message is framed, all its fields re-assigned on the same object, and framed again; from_bytes on every truncation right after the complete frame. Plus in-place edits of one CAddress object inside addr / version messages (IPv6 <-> IPv4) and default-constructed messages after another default-constructed one was edited in place.',
+    'lengths > MAX_SIZE), foreign-chain magic. Plus every history of <=4 (5) events over {select chain, frame 4 types, parse own-chain frames, parse a foreign-chain frame} and headers lists holding CBlock objects. Plus reuse of parsed objects: parse, edit a field, re-frame, parse again. Every message is framed, all its fields re-assigned on the same object, and framed again; from_bytes on every truncation right after the complete frame. Plus in-place edits of one CAddress object inside addr / version messages (IPv6 <-> IPv4) and default-constructed messages after another default-constructed one was edited in place. Every message is also built for protocol versions 209, 31402, 60000, 60001, 60002 and 70001, framed, and parsed with the same protover argument through both entry points: same type, exact consumption, byte-identical re-framing.',
     'DESIGN.md 3 C18', 'Oracle ref/p2p.py (payload layouts from the protocol documentation; literal verack/ping frames).',
     'exhaustive single-fault enumeration on frames plus bounded exhaustive enumeration of messages and frame streams against a reference model')
 
